@@ -28,6 +28,7 @@ func main() {
 			"values copied between variables and headers, helper subroutines with by-value parameters that mutate their parameters, own locals and run their own regex matches, nested if/else-if/switch) are executed; the whole pool (every local, three headers, re.group.0-2 and the canaries req.url, req.method, req.http.Canary) is read before every statement. " +
 			"For each executed statement S of the driven subroutine the set of pool entries that differ between the snapshot before S and the snapshot before the next executed statement must be inside W(S): set/add T -> {T} (+ re.group.* if its value runs a regex match); unset T -> {T}; log, return -> {}; " +
 			"if / switch -> re.group.* only, and only if a condition or case is a regex; call -> headers only: no local of the caller and no re.group.* of the caller. No reference semantics is involved: only WHICH entries change is judged. " +
+			"A third workload (objects) serves histories of seven requests (miss, hits, pass, a second URL) through Interpreter.ServeHTTP against a loopback origin with generated programs that modify bereq in vcl_miss/vcl_pass, beresp in vcl_fetch, resp and req in vcl_deliver, and log what the other objects read beforehand: the cached object read in vcl_hit and the resp read at the start of vcl_deliver are the same on every request for a URL, bereq statements leave req alone, req statements do not reach the next request. " +
 			"non-trivial = program with >=10 checked transitions including >=1 call or >=1 unary minus or >=1 compound assignment with a variable operand; distinct by program text",
 		Assumptions: []string{
 			"operands are kept in range by construction (out of range belongs to C08)",
@@ -35,6 +36,7 @@ func main() {
 		},
 		Gen:           genCases,
 		Run:           run,
+		WorkerInit:    workerInit,
 		Timeout:       180 * time.Second,
 		MinNonTrivial: 300,
 	})
@@ -46,6 +48,9 @@ func genCases(g *fw.GenCtx) {
 	}
 	for k := 0; k < g.Pick(150, 6000); k++ {
 		g.Emit("alias", ccase{Seed: g.Rand.Int63(), N: 10})
+	}
+	for k := 0; k < g.Pick(40, 1500); k++ {
+		g.Emit("objects", ccase{Seed: g.Rand.Int63(), N: 10})
 	}
 }
 
@@ -104,6 +109,10 @@ func run(c fw.Case) fw.Outcome {
 	json.Unmarshal(c.Data, &cc)
 	if c.Kind == "alias" {
 		runAlias(&oc, cc)
+		return oc
+	}
+	if c.Kind == "objects" {
+		runObjects(&oc, cc)
 		return oc
 	}
 	r := rand.New(rand.NewSource(cc.Seed))
